@@ -906,7 +906,7 @@ func main() {
 	thorough := *tier == "thorough"
 	patLen, tokLen := 5, 7
 	if thorough {
-		patLen, tokLen = 7, 8
+		patLen, tokLen = 6, 8
 	}
 	dS := genDict("ab", tokLen, "sorted", *seed)
 	dU := genDict("ab", tokLen, "shuffled", *seed)
@@ -956,7 +956,7 @@ func main() {
 	}
 	nK := 400
 	if thorough {
-		nK = 6000
+		nK = 3000
 	}
 	for i := 0; i < nK; i++ {
 		alpha := rng.Pick(d.r, []string{"ab", "abc", "a"})
@@ -1022,7 +1022,7 @@ func main() {
 	// random numeric material
 	nR := 60
 	if thorough {
-		nR = 1500
+		nR = 800
 	}
 	for i := 0; i < nR; i++ {
 		var pool []string
@@ -1083,7 +1083,7 @@ func main() {
 	// sealed path, random larger dictionaries and layouts, longer prefixes, ranges
 	nS := 150
 	if thorough {
-		nS = 3000
+		nS = 1500
 	}
 	for i := 0; i < nS; i++ {
 		alpha := rng.Pick(d.r, []string{"ab", "abc", "ab"})
@@ -1127,7 +1127,7 @@ func main() {
 	// (e) random dictionaries through pattern.Search, both provider kinds, long strings
 	nD := 250
 	if thorough {
-		nD = 5000
+		nD = 2500
 	}
 	for i := 0; i < nD; i++ {
 		alpha := rng.Pick(d.r, []string{"ab", "abc", "a", "ab"})
@@ -1158,7 +1158,7 @@ func main() {
 	// (f) real fractions: active vs sealed GetTIDsByTokenExpr
 	nF, nBig := 6, 1
 	if thorough {
-		nF, nBig = 60, 4
+		nF, nBig = 40, 3
 	}
 	for i := 0; i < nF+nBig; i++ {
 		alpha := rng.Pick(d.r, []string{"ab", "abc"})
